@@ -140,11 +140,11 @@ structure CpS where
   log : List SEv := []
 deriving Repr
 
-def seg (a n : Nat) : List Nat := (List.range n).map (· + a)
+def cpsSeg (a n : Nat) : List Nat := (List.range n).map (· + a)
 
 /-- `processAddressTranslatorFlushRsp`: L1S, L1V, L1I, L2 -/
 def CpS.ordReset (s : CpS) : List Nat :=
-  seg s.nI s.nS ++ seg (s.nI + s.nS) s.nV ++ seg 0 s.nI ++ seg (s.nI + s.nS + s.nV) s.n2
+  cpsSeg s.nI s.nS ++ cpsSeg (s.nI + s.nS) s.nV ++ cpsSeg 0 s.nI ++ cpsSeg (s.nI + s.nS + s.nV) s.n2
 
 /-- messages in the driver port -/
 def CpS.portLen (s : CpS) : Nat := s.c.drvIn.length + s.later.length
